@@ -29,6 +29,14 @@
                                                     … and the same with in-place changes of the cell (shx.cell.set, fixes/C12_6)
                                                     anywhere in the history: Shelxfile.orthogonal_matrix and the atoms'
                                                     Cartesian coordinates belong to the CURRENT cell
+    inverse_memo_coherent, inverse_after_history_maps_back, memo_kept_fails_on
+                                                    … and with evaluations of cell.o.inversed (memoised on the matrix
+                                                    object) anywhere in between: what it returns is the inverse of the
+                                                    orthogonalisation matrix of the CURRENT cell and maps the atom's current
+                                                    Cartesian coordinates back to its current fractional ones
+    src_cellSetInversed, src_cellSetShxInversed, src_cellSetUeq      the traced source after read → ask → cell.set → ask
+    src_atomUeqFlat5/7/10                           the traced Atom.ueq with U33, U23, U13, U12 tiny but not zero, on either
+                                                    side of every magnitude the code compares U values against
   Not proved (stated, not hidden): rounding of IEEE doubles (every case of a run is compared at 1e-9), and the
   convergence of the QR iteration `misc.eigenvals`, which `is_npd` no longer uses after fixes/C12_3.
 -/
@@ -818,6 +826,95 @@ theorem cell_set_old_fails_on :
   revert this
   decide +kernel
 
+/-! ### histories that also ask for the inverse: the memo of `OrthogonalMatrix.inversed` -/
+
+/-- the memo slot, if filled, holds the inverse of the orthogonalisation matrix of the CURRENT cell -/
+def MemoOk (sqrt : ℝ → ℝ) (s : MemoSt ℝ) : Prop := ∀ i, s.memo = some i → i = inversed (orthoM sqrt s.file.cell)
+
+/-- **inverse_memo_coherent**: on one Shelxfile object, after ANY sequence of atom edits, in-place changes of the cell
+    and evaluations of `cell.o.inversed` (in any order, any number of times), `cell.o.inversed` returns the cofactor
+    inverse of the orthogonalisation matrix of the CURRENT cell — whatever was asked before the cell was changed —
+    and the questions change nothing else: the rest of the object is as after the edits alone -/
+theorem inverse_memo_coherent (sqrt : ℝ → ℝ) (s : MemoSt ℝ) (es : List (Step ℝ)) (h0 : MemoOk sqrt s) :
+    let t := stepHistory sqrt s es
+    MemoOk sqrt t ∧ answerInverse sqrt t = inversed (orthoM sqrt t.file.cell) ∧
+    t.file = fileHistory sqrt s.file (stepEdits es) := by
+  induction es generalizing s with
+  | nil =>
+    refine ⟨h0, ?_, rfl⟩
+    simp only [stepHistory, List.foldl_nil, answerInverse]
+    cases hm : s.memo with
+    | none => rfl
+    | some i => exact h0 i hm
+  | cons e es ih =>
+    have hans : answerInverse sqrt s = inversed (orthoM sqrt s.file.cell) := by
+      simp only [answerInverse]
+      cases hm : s.memo with
+      | none => rfl
+      | some i => exact h0 i hm
+    have hstep : MemoOk sqrt (applyStep sqrt s e) := by
+      cases e with
+      | askInverse =>
+        intro i hi
+        simp only [applyStep, Option.some.injEq] at hi
+        show i = inversed (orthoM sqrt s.file.cell)
+        rw [← hi, hans]
+      | edit f =>
+        cases f with
+        | atomEdit a => intro i hi; exact h0 i hi
+        | setCell c => intro i hi; simp [applyStep] at hi
+    have hfile : (applyStep sqrt s e).file = (stepEdits [e]).foldl (applyF sqrt) s.file := by
+      cases e with
+      | askInverse => rfl
+      | edit f => cases f <;> rfl
+    have := ih (applyStep sqrt s e) hstep
+    simp only [stepHistory, List.foldl_cons] at this ⊢
+    refine ⟨this.1, this.2.1, ?_⟩
+    rw [this.2.2, hfile]
+    cases e with
+    | askInverse => rfl
+    | edit f => rfl
+
+/-- … so for a file that was read, whatever is asked and edited afterwards, if the cell the history leaves is valid:
+    `cell.o.inversed` is a two-sided inverse of the current `cell.o.m`, and it maps the atom's current
+    `cart_coords` back to its current fractional coordinates -/
+theorem inverse_after_history_maps_back {sqrt : ℝ → ℝ} (hs : IsSqrt sqrt) (c : Cell ℝ) (p : V3 ℝ) (u : U6 ℝ)
+    (es : List (Step ℝ)) (h : ValidCell (specCell c (stepEdits es))) :
+    let t := stepHistory sqrt (readFresh sqrt c (parseAtom (orthoM sqrt c) p u)) es
+    let cur := specCell c (stepEdits es)
+    mulMM (answerInverse sqrt t) (orthoM sqrt cur) = one3 ∧ mulMM (orthoM sqrt cur) (answerInverse sqrt t) = one3 ∧
+    mulVec (answerInverse sqrt t) t.file.atom.cart = specFrac p (atomEdits (stepEdits es)) ∧
+    (∀ q, mulVec (answerInverse sqrt t) q = cartToFracMisc sqrt cur q) := by
+  obtain ⟨-, h2, h3⟩ := inverse_memo_coherent sqrt (readFresh sqrt c (parseAtom (orthoM sqrt c) p u)) es
+    (by intro i hi; simp [readFresh] at hi)
+  obtain ⟨-, f2, f3, f4, -⟩ := file_history_coherent sqrt (readFile sqrt c (parseAtom (orthoM sqrt c) p u)) (stepEdits es) ⟨rfl, rfl⟩
+  simp only at h2 h3 f2 f3 f4 ⊢
+  have e3 : (fileHistory sqrt (readFile sqrt c (parseAtom (orthoM sqrt c) p u)) (stepEdits es)).cell = specCell c (stepEdits es) := f3
+  have e4 : (fileHistory sqrt (readFile sqrt c (parseAtom (orthoM sqrt c) p u)) (stepEdits es)).atom.frac
+      = specFrac p (atomEdits (stepEdits es)) := f4
+  have hfile : (readFresh sqrt c (parseAtom (orthoM sqrt c) p u)).file = readFile sqrt c (parseAtom (orthoM sqrt c) p u) := rfl
+  rw [hfile] at h3
+  rw [h2, h3, e3, f2, e3, e4]
+  obtain ⟨i1, i2, i3, -⟩ := ortho_inverse hs _ h
+  exact ⟨i2, i1, i3 _, fun q => (cart_to_frac_agrees hs _ h q).symm⟩
+
+/-- the theorem hangs on `CELL.set` building a fresh matrix object: if the object were kept and recalculated in place
+    with its memo, one question before one `cell.set` would leave the inverse of the OLD cell -/
+theorem memo_kept_fails_on :
+    ¬ (∀ (d : Cell ℚ) (p : V3 ℚ),
+        answerInverse sqrtW (stepHistoryKeep sqrtW (readFresh sqrtW cellW (parseAtom (orthoM sqrtW cellW) p uW))
+          [.askInverse, .edit (.setCell d)]) = inversed (orthoM sqrtW d)) := by
+  intro hst
+  have := congrArg (fun m : M3 ℚ => m.r0.x) (hst { cellW with a := 9 } ⟨0, 0, 0⟩)
+  revert this
+  decide +kernel
+
+example : (answerInverse sqrtW (stepHistory sqrtW (readFresh sqrtW cellW (parseAtom (orthoM sqrtW cellW) ⟨0, 0, 0⟩ uW))
+    [.askInverse, .edit (.setCell { cellW with a := 9 }), .askInverse])).r0.x = 1 / 9 ∧
+    (answerInverse sqrtW (stepHistoryKeep sqrtW (readFresh sqrtW cellW (parseAtom (orthoM sqrtW cellW) ⟨0, 0, 0⟩ uW))
+    [.askInverse, .edit (.setCell { cellW with a := 9 }), .askInverse])).r0.x = 1 / 5 := by
+  decide +kernel
+
 /-! ## the tie to the traced source (`ShelxModel/Extracted/C12Src.lean`, regenerated on every run)
 
   `extract/trace_c12.py` runs the repository's own code on symbolic numbers (`extract/symtrace.py`): the helper classes
@@ -935,5 +1032,44 @@ theorem src_atomUeq (sqrt : ℝ → ℝ) (c : Cell ℝ) (u : U6 ℝ) :
     Src.atomUeq sqrt c.a c.b c.c c.ca c.cb c.cg c.sa c.sb c.sg u.u11 u.u22 u.u33 u.u23 u.u13 u.u12
       = ueqAniso sqrt c u := by
   src_tie [Src.atomUeq, ueqAniso, trace, ucart, ustar, mulMM, mulRR, transpose, col0, col1, col2, dot, orthoM, nMat, diag, recip, volume, volRadicand, ucif]
+
+/-! ### traced histories and traced thresholds
+
+  `cellSetInversed`, `cellSetShxInversed`, `cellSetUeq`: the file is read with one cell, the observables (and
+  `cell.o.inversed`) are ASKED, the cell is changed with `shx.cell.set`, and the observable is asked again. The traced
+  result is a function of the SECOND cell's numbers only (a result that still mentioned the first cell could not even be
+  written out with this signature), and it is the model function of the second cell.
+  `atomUeqFlat5/7/10`: the same atom with U33, U23, U13, U12 tiny but not zero (sums of absolute values 1e-5, 7e-7,
+  1e-10: on either side of each magnitude the code compares U values against — the branch events in the docstrings of
+  `Src.…` name the constants 1e-06 of `set_uvals`/`parse_line`). On every one of these paths `Atom.ueq` is the SAME
+  straight-line program, one third of the trace of the Cartesian tensor. -/
+
+theorem src_cellSetInversed (sqrt : ℝ → ℝ) (c : Cell ℝ) :
+    Src.cellSetInversed sqrt c.a c.b c.c c.ca c.cb c.cg c.sg = flatM (inversed (orthoM sqrt c)) := by
+  src_tie [Src.cellSetInversed, inversed, det, orthoM, flatM, volume, volRadicand]
+
+theorem src_cellSetShxInversed (sqrt : ℝ → ℝ) (c : Cell ℝ) :
+    Src.cellSetShxInversed sqrt c.a c.b c.c c.ca c.cb c.cg c.sg = flatM (inversed (orthoM sqrt c)) := by
+  src_tie [Src.cellSetShxInversed, inversed, det, orthoM, flatM, volume, volRadicand]
+
+theorem src_cellSetUeq (sqrt : ℝ → ℝ) (c : Cell ℝ) (u : U6 ℝ) :
+    Src.cellSetUeq sqrt c.a c.b c.c c.ca c.cb c.cg c.sa c.sb c.sg u.u11 u.u22 u.u33 u.u23 u.u13 u.u12
+      = ueqAniso sqrt c u := by
+  src_tie [Src.cellSetUeq, ueqAniso, trace, ucart, ustar, mulMM, mulRR, transpose, col0, col1, col2, dot, orthoM, nMat, diag, recip, volume, volRadicand, ucif]
+
+theorem src_atomUeqFlat5 (sqrt : ℝ → ℝ) (c : Cell ℝ) (u : U6 ℝ) :
+    Src.atomUeqFlat5 sqrt c.a c.b c.c c.ca c.cb c.cg c.sa c.sb c.sg u.u11 u.u22 u.u33 u.u23 u.u13 u.u12
+      = ueqAniso sqrt c u := by
+  src_tie [Src.atomUeqFlat5, ueqAniso, trace, ucart, ustar, mulMM, mulRR, transpose, col0, col1, col2, dot, orthoM, nMat, diag, recip, volume, volRadicand, ucif]
+
+theorem src_atomUeqFlat7 (sqrt : ℝ → ℝ) (c : Cell ℝ) (u : U6 ℝ) :
+    Src.atomUeqFlat7 sqrt c.a c.b c.c c.ca c.cb c.cg c.sa c.sb c.sg u.u11 u.u22 u.u33 u.u23 u.u13 u.u12
+      = ueqAniso sqrt c u := by
+  src_tie [Src.atomUeqFlat7, ueqAniso, trace, ucart, ustar, mulMM, mulRR, transpose, col0, col1, col2, dot, orthoM, nMat, diag, recip, volume, volRadicand, ucif]
+
+theorem src_atomUeqFlat10 (sqrt : ℝ → ℝ) (c : Cell ℝ) (u : U6 ℝ) :
+    Src.atomUeqFlat10 sqrt c.a c.b c.c c.ca c.cb c.cg c.sa c.sb c.sg u.u11 u.u22 u.u33 u.u23 u.u13 u.u12
+      = ueqAniso sqrt c u := by
+  src_tie [Src.atomUeqFlat10, ueqAniso, trace, ucart, ustar, mulMM, mulRR, transpose, col0, col1, col2, dot, orthoM, nMat, diag, recip, volume, volRadicand, ucif]
 
 end Shelx.C12
